@@ -1115,6 +1115,12 @@ func main() {
 		return
 	}
 	rng := vh.NewRng(args.Seed)
+	if only := os.Getenv("C02_ONLY"); only == "race" {
+		// development aid: the free-running section alone
+		sectionRace(rng.Fork("race"))
+		res.Write(args.Out)
+		return
+	}
 	sectionCorpus()
 	sectionTree(rng.Fork("tree"))
 	sectionSelector(rng.Fork("selector"))
